@@ -1,6 +1,7 @@
 package main
 
 import (
+	"go/constant"
 	"fmt"
 	"go/token"
 	"go/types"
@@ -493,9 +494,6 @@ func (eng *Engine) isInline(fn *ssa.Function) bool {
 
 // inlineCall executes a single-block function body in the current path.
 func (g *VCGen) inlineCall(fn *ssa.Function, args []SpecVal, pos token.Pos) []SpecVal {
-	if len(fn.Blocks) != 1 {
-		panic(unsupported("cannot inline " + fn.String() + ": not straight-line code"))
-	}
 	g.inlineDepth++
 	defer func() { g.inlineDepth-- }()
 	if g.inlineDepth > 6 {
@@ -504,24 +502,72 @@ func (g *VCGen) inlineCall(fn *ssa.Function, args []SpecVal, pos token.Pos) []Sp
 	if len(args) != len(fn.Params) {
 		panic(unsupported("inline arity mismatch for " + fn.String()))
 	}
+	// constant arguments (used to resolve branches of the inlined body statically)
+	consts := map[ssa.Value]*ssa.Const{}
+	if ca := g.pendingInlineArgs; len(ca) == len(fn.Params) {
+		for i, a := range ca {
+			if c, ok := a.(*ssa.Const); ok {
+				consts[fn.Params[i]] = c
+			}
+		}
+	}
+	g.pendingInlineArgs = nil
 	for i, p := range fn.Params {
 		g.vals[p] = SpecVal{args[i].T, g.so.sortOf(p.Type()), p.Type()}
 	}
-	for _, in := range fn.Blocks[0].Instrs {
-		switch x := in.(type) {
-		case *ssa.Return:
-			var out []SpecVal
-			for _, r := range x.Results {
-				out = append(out, g.val(r))
-			}
-			return out
-		case *ssa.Phi, *ssa.If, *ssa.Jump:
-			panic(unsupported("cannot inline " + fn.String()))
-		default:
-			g.instr(in)
+	constOf := func(v ssa.Value) *ssa.Const {
+		if c, ok := v.(*ssa.Const); ok {
+			return c
 		}
+		return consts[v]
 	}
-	return nil
+	b := fn.Blocks[0]
+	for steps := 0; steps < 64; steps++ {
+		var next *ssa.BasicBlock
+		for _, in := range b.Instrs {
+			switch x := in.(type) {
+			case *ssa.Return:
+				var out []SpecVal
+				for _, r := range x.Results {
+					out = append(out, g.val(r))
+				}
+				return out
+			case *ssa.Phi:
+				panic(unsupported("cannot inline " + fn.String() + ": not straight-line code"))
+			case *ssa.Jump:
+				next = b.Succs[0]
+			case *ssa.If:
+				// only branches decided by the constant arguments of this call
+				bo, ok := x.Cond.(*ssa.BinOp)
+				if !ok || (bo.Op != token.EQL && bo.Op != token.NEQ) {
+					panic(unsupported("cannot inline " + fn.String() + ": not straight-line code"))
+				}
+				cx, cy := constOf(bo.X), constOf(bo.Y)
+				if cx == nil || cy == nil || cx.Value == nil || cy.Value == nil {
+					panic(unsupported("cannot inline " + fn.String() + ": not straight-line code"))
+				}
+				eq := constant.Compare(cx.Value, token.EQL, cy.Value)
+				if bo.Op == token.NEQ {
+					eq = !eq
+				}
+				if eq {
+					next = b.Succs[0]
+				} else {
+					next = b.Succs[1]
+				}
+			default:
+				if bo, ok := in.(*ssa.BinOp); ok && (bo.Op == token.EQL || bo.Op == token.NEQ) && constOf(bo.X) != nil && constOf(bo.Y) != nil {
+					continue // a comparison of constants feeding a branch resolved above
+				}
+				g.instr(in)
+			}
+		}
+		if next == nil {
+			return nil
+		}
+		b = next
+	}
+	panic(unsupported("cannot inline " + fn.String() + ": too many blocks"))
 }
 
 // refineInvoke: the open-world interface contract has been applied (g.cur is its post-state, openRes its results).
